@@ -430,7 +430,21 @@ pub fn decode_stream(r: &mut Rng, big: bool) -> (bool, Vec<u8>) {
             b.extend(suffix(r));
             b
         }
-        2 => noise(r),
+        2 => {
+            if r.flip() {
+                noise(r)
+            } else {
+                // a payload of 0..5 bytes behind a random header shape / message kind
+                let mp = minimal_payloads(r.below(32) as u8);
+                let mut b = if storage {
+                    vec![0x44, 0x4c, 0x54, 0x01, 1, 0, 0, 0, 2, 0, 0, 0, b'E', b'C', b'U', 0]
+                } else {
+                    vec![]
+                };
+                b.extend_from_slice(&r.pick(&mp).1);
+                b
+            }
+        }
         3 => {
             // junk in front (storage mode resync)
             let k = r.range(1, 12) as usize;
@@ -455,6 +469,38 @@ pub fn decode_stream(r: &mut Rng, big: bool) -> (bool, Vec<u8>) {
     (w, v)
 }
 
+/// messages whose declared length leaves a payload of 0..5 bytes, for one header flag set and each
+/// message kind (non-verbose log, verbose log, control, verbose network trace) x NOAR 0 / 1 / 255
+pub fn minimal_payloads(flags: u8) -> Vec<(usize, Vec<u8>)> {
+    let mut out = vec![];
+    let ueh = flags & 1 != 0;
+    let hl = 4 + 4 * ((flags >> 2) & 1) as usize + 4 * ((flags >> 3) & 1) as usize + 4 * ((flags >> 4) & 1) as usize
+        + if ueh { 10 } else { 0 };
+    let kinds: &[(u8, u8)] = if ueh { &[(0x10, 0), (0x11, 0), (0x11, 1), (0x16, 0), (0x16, 255), (0x25, 1), (0x41, 0)] } else { &[(0, 0)] };
+    for (msin, noar) in kinds {
+        for k in 0..=5usize {
+            let len = (hl + k) as u16;
+            let mut v = vec![flags | 0x20, 7, (len >> 8) as u8, len as u8];
+            for _ in 0..((flags >> 2) & 1) + ((flags >> 3) & 1) + ((flags >> 4) & 1) {
+                v.extend_from_slice(b"AB\0\0");
+            }
+            if ueh {
+                v.push(*msin);
+                v.push(*noar);
+                v.extend_from_slice(b"APP\0CTX\0");
+            }
+            for i in 0..k {
+                v.push(0x30 + i as u8);
+            }
+            out.push((k, v.clone()));
+            // the same with bytes of a following message behind it
+            v.extend_from_slice(&[0x35, 1, 0, 4]);
+            out.push((k, v));
+        }
+    }
+    out
+}
+
 fn c03(r: &mut Rng, thorough: bool, w: W) -> std::io::Result<()> {
     let n = if thorough { 400_000 } else { 8_000 };
     // guard-targeted: declared length below the header length, for all 32 flag sets
@@ -465,6 +511,18 @@ fn c03(r: &mut Rng, thorough: bool, w: W) -> std::io::Result<()> {
             writeln!(w, "NOPANIC 0 - {}", hex(&v))?;
             let mut s = vec![0x44, 0x4c, 0x54, 0x01, 0, 0, 0, 0, 0, 0, 0, 0, b'E', b'C', b'U', 0];
             s.extend(&v);
+            writeln!(w, "NOPANIC 1 - {}", hex(&s))?;
+            writeln!(w, "CONSUME {}", hex(&s))?;
+        }
+    }
+    // guard-targeted: payloads of 0..5 bytes behind every header shape and message kind (control
+    // messages need 1 byte, non-verbose ones 4; a verbose message with NOAR > 0 needs arguments)
+    for flags in 0..32u8 {
+        for (k, b) in minimal_payloads(flags) {
+            let _ = k;
+            writeln!(w, "NOPANIC 0 - {}", hex(&b))?;
+            let mut s = vec![0x44, 0x4c, 0x54, 0x01, 0, 0, 0, 0, 0, 0, 0, 0, b'E', b'C', b'U', 0];
+            s.extend(&b);
             writeln!(w, "NOPANIC 1 - {}", hex(&s))?;
             writeln!(w, "CONSUME {}", hex(&s))?;
         }
